@@ -3,6 +3,9 @@ package ksim
 import (
 	"context"
 	"fmt"
+	"time"
+
+	"k8s.io/apimachinery/pkg/util/intstr"
 
 	kruisev1alpha1 "github.com/openkruise/kruise-api/apps/v1alpha1"
 	appsv1 "k8s.io/api/apps/v1"
@@ -27,6 +30,9 @@ type User struct {
 	Version int // current desired version of the workload template (1, 2, 3 ...)
 	Released bool
 	Approvals int
+	PausedByUser bool
+	doneKinds map[string]bool
+	doneAt    map[string]time.Time
 	Disturbed bool // the user did something after the release that changes what "finished" means
 }
 
@@ -148,6 +154,7 @@ func (u *User) Options(s *Sim) []option {
 	}
 	var opts []option
 	sub := ro.Status.GetSubStatus()
+	opts = append(opts, u.eventOptions(ro)...)
 	if sub != nil && ro.Status.Phase == v1beta1.RolloutPhaseProgressing && sub.CurrentStepState == v1beta1.CanaryStepStatePaused && u.sc.AutoApprove {
 		idx := int(sub.CurrentStepIndex)
 		steps := ro.Spec.Strategy.GetSteps()
@@ -165,4 +172,193 @@ func (u *User) Options(s *Sim) []option {
 		}
 	}
 	return opts
+}
+
+// ---------------------------------------------------------------------------
+// scripted disturbances
+
+func reached(ro *v1beta1.Rollout, ev *UserEvent) bool {
+	sub := ro.Status.GetSubStatus()
+	if sub == nil || ro.Status.Phase != v1beta1.RolloutPhaseProgressing {
+		return false
+	}
+	if int(sub.CurrentStepIndex) != ev.AtStep {
+		return int(sub.CurrentStepIndex) > ev.AtStep
+	}
+	return stepRank(sub.CurrentStepState) >= stepRank(v1beta1.CanaryStepState(ev.AtState))
+}
+
+func (u *User) eventOptions(ro *v1beta1.Rollout) []option {
+	var opts []option
+	for i := range u.sc.Events {
+		ev := &u.sc.Events[i]
+		if ev.Done {
+			continue
+		}
+		if ev.After != "" {
+			// follow-up of an earlier event: fires some time after it
+			if !u.doneKinds[ev.After] || u.sim.Now().Before(u.doneAt[ev.After].Add(time.Duration(ev.Arg)*time.Second)) {
+				continue
+			}
+		} else if !reached(ro, ev) {
+			continue
+		}
+		e := ev
+		opts = append(opts, u.step(ev.Kind, func() { u.fire(e) }))
+		break // events fire in script order
+	}
+	return opts
+}
+
+func (u *User) markDone(ev *UserEvent) {
+	ev.Done = true
+	if u.doneKinds == nil {
+		u.doneKinds = map[string]bool{}
+		u.doneAt = map[string]time.Time{}
+	}
+	u.doneKinds[ev.Kind] = true
+	u.doneAt[ev.Kind] = u.sim.Now()
+	if ev.After != "" {
+		// make sure the scheduler wakes up for it
+	}
+}
+
+func (u *User) fire(ev *UserEvent) {
+	s := u.sim
+	retry := false
+	defer func() {
+		if !retry {
+			u.markDone(ev)
+			// wake-up for follow-ups
+			for i := range u.sc.Events {
+				if f := &u.sc.Events[i]; f.After == ev.Kind && !f.Done {
+					s.After(time.Duration(f.Arg)*time.Second+time.Millisecond, func() {})
+				}
+			}
+		}
+	}()
+	webhookDown := func(err error) bool {
+		if err != nil && apierrors.IsInternalError(err) {
+			retry = true
+			s.After(500*time.Millisecond, func() {})
+			return true
+		}
+		return false
+	}
+	switch ev.Kind {
+	case "rollback":
+		u.Disturbed = true
+		if webhookDown(u.setVersion(1)) {
+			return
+		}
+	case "release-v3":
+		u.Disturbed = true
+		if webhookDown(u.setVersion(3)) {
+			return
+		}
+	case "scale":
+		o := u.getWorkload()
+		if o == nil {
+			return
+		}
+		n := int32(ev.Arg)
+		if n < 1 {
+			n = 1
+		}
+		switch w := o.(type) {
+		case *kruisev1alpha1.CloneSet:
+			w.Spec.Replicas = &n
+		case *appsv1.Deployment:
+			w.Spec.Replicas = &n
+		}
+		if webhookDown(u.h.Update(u.ctx, o)) {
+			return
+		}
+	case "pause", "resume":
+		ro := u.getRollout()
+		if ro == nil {
+			return
+		}
+		ro.Spec.Strategy.Paused = ev.Kind == "pause"
+		if webhookDown(u.h.Update(u.ctx, ro)) {
+			return
+		}
+		u.PausedByUser = ev.Kind == "pause"
+	case "jump", "hostile-jump":
+		ro := u.getRollout()
+		if ro == nil || ro.Status.GetSubStatus() == nil {
+			return
+		}
+		ro.Status.GetSubStatus().NextStepIndex = int32(ev.Arg)
+		_ = u.h.Status().Update(u.ctx, ro)
+	case "edit-plan":
+		ro := u.getRollout()
+		if ro == nil {
+			return
+		}
+		steps := ro.Spec.Strategy.GetSteps()
+		j := ev.Arg % len(steps)
+		st := &steps[j]
+		lo, hi := 1, 100
+		isPct := st.Replicas.Type == intstr.String
+		val := func(v *intstr.IntOrString) int {
+			if v.Type == intstr.String {
+				p := 0
+				fmt.Sscanf(v.StrVal, "%d%%", &p)
+				return p
+			}
+			return int(v.IntVal)
+		}
+		if !isPct {
+			hi = u.sc.Replicas + 2
+		}
+		if j > 0 && (steps[j-1].Replicas.Type == intstr.String) == isPct {
+			lo = val(steps[j-1].Replicas)
+		}
+		if j < len(steps)-1 && (steps[j+1].Replicas.Type == intstr.String) == isPct {
+			hi = val(steps[j+1].Replicas)
+		}
+		if hi < lo {
+			hi = lo
+		}
+		nv := lo + (ev.Arg/7)%(hi-lo+1)
+		if isPct {
+			x := intstr.FromString(fmt.Sprintf("%d%%", nv))
+			st.Replicas = &x
+		} else {
+			x := intstr.FromInt(nv)
+			st.Replicas = &x
+		}
+		err := u.h.Update(u.ctx, ro)
+		if webhookDown(err) {
+			return
+		}
+		if err != nil {
+			s.stat("user.edit-plan-rejected")
+		}
+	case "disable", "enable":
+		ro := u.getRollout()
+		if ro == nil {
+			return
+		}
+		ro.Spec.Disabled = ev.Kind == "disable"
+		if webhookDown(u.h.Update(u.ctx, ro)) {
+			return
+		}
+		u.Disturbed = true
+	case "delete-rollout":
+		ro := u.getRollout()
+		if ro == nil {
+			return
+		}
+		u.Disturbed = true
+		_ = u.h.Delete(u.ctx, ro)
+	case "unpause-workload":
+		if d, ok := u.getWorkload().(*appsv1.Deployment); ok {
+			d.Spec.Paused = false
+			if webhookDown(u.h.Update(u.ctx, d)) {
+				return
+			}
+		}
+	}
 }
